@@ -1347,14 +1347,16 @@ LEVEL_TEXT = (LEVEL_TEXT +
               "addressed command and every spelling of it (short, long, visible aliases; class: an alias comes with its "
               "primary), each of the six scripts exists and mentions that spelling where its shell looks it up for that path "
               "(fish: paths of at most two words); for hyphen-free subcommand names all hypotheses are on the user's tree "
-              "(_plain); determinism of all six as one statement (C16_six_generators_deterministic).")
+              "(_plain); the same for the names and visible aliases of the subcommands of the addressed command "
+              "(C16_six_generators_mention_subcommands; nushell: the name); determinism of all six as one statement "
+              "(C16_six_generators_deterministic).")
 LEVEL_NOTE = LEVEL_NOTE.replace(
     "that build keeps names free of spaces and sibling names distinct is a hypothesis of the zsh "
     "exact-lookup and coverage theorems (tied by the built-tree dump); ",
     "that build keeps names free of spaces and sibling names distinct IS proved since round 3 (the built names are a "
     "structural function of the user's tree); for bash the injectivity of the mangled function names on the built tree is "
     "derived from the user's tree only when no subcommand name contains a hyphen, otherwise it is a hypothesis on the built "
-    "tree; the six-generator statement covers option spellings (possible values and subcommand words are covered per shell, "
+    "tree; the six-generator statements cover option spellings and subcommand words (possible values are covered per shell, "
     "on the built tree, with C16_user_paths_are_built_paths as the bridge); ").replace(
     "multi-valued positionals after a catch-all are skipped by design; ",
     "multi-valued positionals are characterised exactly (a second catch-all is skipped by design; clap's configuration check "
